@@ -15,6 +15,7 @@
 // symlink, symlinkat, mkdir, mkdirat — counted only when a path argument (resolved against the
 // caller's working directory or directory descriptor) lies below one of the roots. All threads
 // and child processes are followed (PTRACE_O_TRACECLONE/FORK/VFORK/EXEC, PTRACE_O_EXITKILL).
+// Run may be called from several goroutines at once.
 package crashfs
 
 import (
@@ -37,10 +38,10 @@ type Cmd struct {
 
 // Call is one mutating system call seen at its entry.
 type Call struct {
-	Name string `json:"name"`
-	Path string `json:"path,omitempty"`  // resolved first path argument (or the file behind the descriptor)
+	Name  string `json:"name"`
+	Path  string `json:"path,omitempty"`  // resolved first path argument (or the file behind the descriptor)
 	Path2 string `json:"path2,omitempty"` // second path (rename, link)
-	Arg  int64  `json:"arg,omitempty"`   // open flags, mode, length
+	Arg   int64  `json:"arg,omitempty"`   // open flags, mode, length
 }
 
 func (c Call) String() string {
@@ -60,15 +61,39 @@ type Trace struct {
 }
 
 const (
-	sysWrite = 1; sysOpen = 2; sysPwrite64 = 18; sysWritev = 20; sysTruncate = 76; sysFtruncate = 77
-	sysRename = 82; sysMkdir = 83; sysRmdir = 84; sysCreat = 85; sysLink = 86; sysUnlink = 87; sysSymlink = 88
-	sysChmod = 90; sysFchmod = 91; sysOpenat = 257; sysMkdirat = 258; sysUnlinkat = 263; sysRenameat = 264
-	sysLinkat = 265; sysSymlinkat = 266; sysFchmodat = 268; sysRenameat2 = 316; sysOpenat2 = 437
+	sysWrite     = 1
+	sysOpen      = 2
+	sysPwrite64  = 18
+	sysWritev    = 20
+	sysTruncate  = 76
+	sysFtruncate = 77
+	sysRename    = 82
+	sysMkdir     = 83
+	sysRmdir     = 84
+	sysCreat     = 85
+	sysLink      = 86
+	sysUnlink    = 87
+	sysSymlink   = 88
+	sysChmod     = 90
+	sysFchmod    = 91
+	sysOpenat    = 257
+	sysMkdirat   = 258
+	sysUnlinkat  = 263
+	sysRenameat  = 264
+	sysLinkat    = 265
+	sysSymlinkat = 266
+	sysFchmodat  = 268
+	sysRenameat2 = 316
+	sysOpenat2   = 437
 
 	atFdcwd = -100
 	enosys  = ^uint64(37) // -ENOSYS: value of rax at a syscall-entry stop
 
 	ptraceOExitKill = 0x100000
+
+	// __WALL | __WNOTHREAD: wait for the tracees of the calling thread only, so that several
+	// Run calls may proceed in parallel, each on its own locked thread
+	waitFlags = syscall.WALL | 0x20000000
 )
 
 var names = map[uint64]string{sysWrite: "write", sysOpen: "open", sysPwrite64: "pwrite64", sysWritev: "writev", sysTruncate: "truncate", sysFtruncate: "ftruncate",
@@ -236,7 +261,7 @@ func run(cmd Cmd, killAt int) (tr Trace, err error) {
 		}
 		for {
 			var ws syscall.WaitStatus
-			if _, e := syscall.Wait4(-1, &ws, syscall.WALL, nil); e != nil {
+			if _, e := syscall.Wait4(-1, &ws, waitFlags, nil); e != nil {
 				if e == syscall.EINTR {
 					continue
 				}
@@ -245,7 +270,7 @@ func run(cmd Cmd, killAt int) (tr Trace, err error) {
 		}
 	}
 	var ws syscall.WaitStatus
-	if _, err = syscall.Wait4(main, &ws, syscall.WALL, nil); err != nil || !ws.Stopped() {
+	if _, err = syscall.Wait4(main, &ws, waitFlags, nil); err != nil || !ws.Stopped() {
 		killAll()
 		return tr, fmt.Errorf("crashfs: tracee did not stop at exec: %v %v", err, ws)
 	}
@@ -261,7 +286,7 @@ func run(cmd Cmd, killAt int) (tr Trace, err error) {
 	}
 	tr.Procs = 1
 	for len(alive) > 0 {
-		pid, e := syscall.Wait4(-1, &ws, syscall.WALL, nil)
+		pid, e := syscall.Wait4(-1, &ws, waitFlags, nil)
 		if e == syscall.EINTR {
 			continue
 		}
@@ -305,8 +330,6 @@ func run(cmd Cmd, killAt int) (tr Trace, err error) {
 			}
 			syscall.PtraceSyscall(pid, 0)
 		case sig == syscall.SIGTRAP: // ptrace event (clone, fork, vfork, exec) or exec trap
-			syscall.PtraceSyscall(pid, 0)
-		case sig == syscall.SIGSTOP && ws.TrapCause() == 0 && false:
 			syscall.PtraceSyscall(pid, 0)
 		default: // a real signal (SIGURG from the Go runtime, SIGCHLD, …): deliver it
 			syscall.PtraceSyscall(pid, int(sig))
